@@ -142,6 +142,7 @@ _ENV_KEYS = ("PATH", "FAKESAT_LOG", "FAKESAT_CONV", "FAKESAT_SHAPE", "FAKESAT_SE
 
 class Bench:
     """Scratch PATH directory + fresh tempfile.tempdir + side log; everything restored on exit."""
+    count = 0
 
     def __enter__(self):
         import cnfgen           # noqa: F401 - importing it runs `git`; must happen while PATH is intact
@@ -151,7 +152,9 @@ class Bench:
         self.root = tempfile.mkdtemp(prefix="vmon-c20-", dir="/tmp")
         try:
             self.bin = os.path.join(self.root, "bin")
-            self.tmp = os.path.join(self.root, "tmp")
+            # every other bench puts the temporary directory under a path with a blank in it
+            Bench.count += 1
+            self.tmp = os.path.join(self.root, "tmp dir" if Bench.count % 2 else "tmp")
             self.log = os.path.join(self.root, "solver.log")
             os.mkdir(self.bin)
             os.mkdir(self.tmp)
@@ -239,6 +242,12 @@ CURATED_FORMULAS = [
     ("empty-clause-among-others", 3, [[1, -2, 3], []]),
     ("alternating-signs", 8, [[-1], [2], [-3], [4], [-5], [6], [-7], [8]]),
     ("negative-then-positive", 6, [[-6], [5], [-4, 6], [3], [-2], [1, 2]]),
+    # multi-digit variables: 10, 20, 30 and 100 are where digit-level slips in an answer parser show
+    ("ten-variables-planted", 10, [[v if v % 3 else -v] for v in range(1, 11)] + [[1, -3, 10], [-9, 10]]),
+    ("twenty-variables-planted", 20, [[v if v % 2 else -v] for v in range(20, 0, -1)] + [[19, 20], [-20, 1, 2]]),
+    ("thirty-variables-planted", 30, [[-v if v % 5 else v] for v in range(1, 31)] + [[30, -29], [10, 20, 30]]),
+    ("hundred-variables-planted", 100, [[v] for v in range(1, 101)] + [[100, -1], [50, 60, -70]]),
+    ("thirty-variables-contradiction", 30, [[v] for v in range(1, 31)] + [[-30]]),
 ]
 
 
@@ -408,11 +417,35 @@ class Formula:
         self.label, self.F, self.spec = label, F, spec
         self.n = F.number_of_variables() if n is None else n
         self.clauses = [list(c) for c in F] if clauses is None else clauses
-        self.models = tt.models_cnf(self.n, self.clauses)
+        # up to 18 variables the truth table is the reference; larger formulas are *planted* (every variable
+        # forced by unit clauses, or two contradicting units) so that their status is known by construction
+        self.big = self.n > 18
+        if self.big:
+            forced = {}
+            self.known_sat = True
+            for c in self.clauses:
+                if len(c) == 1:
+                    if forced.get(abs(c[0]), c[0]) != c[0]:
+                        self.known_sat = False
+                    forced[abs(c[0])] = c[0]
+            if self.known_sat and len(forced) != self.n:
+                raise AssertionError("large formulas must force every variable by a unit clause")
+            self.models = self.known_sat          # truthiness only
+        else:
+            self.models = tt.models_cnf(self.n, self.clauses)
         self.crc = canonical_crc(self.n, self.clauses)
         self.key = (self.n, tuple(map(tuple, self.clauses))) if len(self.clauses) <= 200 else (self.n, self.crc)
 
+    def satisfied_by(self, lits):
+        """is the total assignment given by `lits` a model?"""
+        if not self.big:
+            return bool((self.models >> tt.index_of([l for l in lits if l > 0])) & 1)
+        true = set(lits)
+        return len(true) == self.n and all(any(l in true for l in c) for c in self.clauses)
+
     def count(self, ctx):
+        if self.big:
+            ctx.count("formula_more_than_18_variables")
         if self.n == 0:
             ctx.count("formula_zero_variables")
         if any(len(c) == 0 for c in self.clauses):
@@ -564,8 +597,8 @@ def bridge(ctx, bench, fm, method, cmd, sameas, verbose, sh, usable, convmap=Non
         else:
             # the stand-in must itself be right about the formula it received
             if (run["dec"] == "SAT") != bool(fm.models):
-                raise AssertionError("fake solver decided %r, truth table says %d models" % (run["dec"], tt.count(fm.models)))
-            if run["model"] is not None and not (fm.models >> tt.index_of([l for l in run["model"] if l > 0])) & 1:
+                raise AssertionError("fake solver decided %r, the reference says satisfiable=%r" % (run["dec"], bool(fm.models)))
+            if run["model"] is not None and not fm.satisfied_by(run["model"]):
                 raise AssertionError("fake solver printed a non-model %r" % (run["model"],))
             ctx.count("solver_decision_cross_checked")
     answered = run["answered"]
@@ -653,8 +686,7 @@ def judge_witness(ctx, bad, fm, run, w):
             "the solver printed the model %r, the call returned %r" % (sorted(run["model"], key=abs), w))
         return False
     ctx.count("witness_checked_against_truth_table")
-    if any(abs(l) > fm.n for l in w) or not (fm.models >> tt.index_of([l for l in w if l > 0])) & 1 \
-            or len(w) != fm.n:
+    if any(abs(l) > fm.n for l in w) or len(w) != fm.n or not fm.satisfied_by(w):
         bad("sat-answer:witness-does-not-satisfy-formula", "the assignment %r is not a total model" % (w,))
         return False
     return True
@@ -704,7 +736,7 @@ def case_single(ctx, formula, method, cmd, sameas, verbose, shape, installed, br
 
 
 LIGHT = ("no-variables", "no-variables-empty-clause", "unused-between-used", "unsat-with-unused",
-         "alternating-signs")
+         "alternating-signs", "ten-variables-planted", "thirty-variables-planted", "hundred-variables-planted")
 
 
 def case_curated(ctx, name, form, light=False):
